@@ -288,6 +288,9 @@ func (s Schema) MarshalJSON() ([]byte, error) {
 		Enum  any `json:"enum,omitempty"`
 		AnyOf any `json:"anyOf,omitempty"`
 		OneOf any `json:"oneOf,omitempty"`
+		// Likewise an empty, non-nil Vocabulary is a "$vocabulary" keyword (Resolve
+		// looks at its presence), so only nil is omitted.
+		Vocabulary any `json:"$vocabulary,omitempty"`
 		*schemaWithoutMethods
 	}{
 		Type:                 typ,
@@ -303,6 +306,9 @@ func (s Schema) MarshalJSON() ([]byte, error) {
 	}
 	if s.OneOf != nil {
 		ms.OneOf = s.OneOf
+	}
+	if s.Vocabulary != nil {
+		ms.Vocabulary = s.Vocabulary
 	}
 	// Marshal properties, even if the empty map (but not nil).
 	if s.Properties != nil {
